@@ -4,7 +4,7 @@ PID = "C06"
 
 
 def main(tier, seed):
-    return sprops.main_S(PID, tier, seed, {65, 66}, "Props.C06",
+    return sprops.main_S(PID, tier, seed, {65, 66, 67}, "Props.C06",
                          ["Model/Sim.v", "Model/Master.v", "Oracle/SimCheck.v", "Oracle/SimOracle.v", "Proofs/MasterP.v", "Props/C06.v"],
                          "callbacks", "callbacks")
 
